@@ -495,6 +495,8 @@ def of_value(px, st, v, facts=None, hyp=None):
                 empty = True
             why.append(op)
         cur = m
+        if empty and facts is not None and known_nonempty(px, facts, m):
+            empty = False          # the emptiness test was made on the collection as it is after this operation
     return Result(state, empty, why)
 
 
